@@ -824,7 +824,7 @@ class Client:
         starting_handle = 0x0001
         ending_handle = 0xFFFF
         attributes = []
-        while True:
+        while starting_handle <= ending_handle:
             response = await self.send_request(
                 att.ATT_Find_Information_Request(
                     starting_handle=starting_handle, ending_handle=ending_handle
@@ -842,6 +842,10 @@ class Client:
                         f'{HCI_Constant.error_name(response.error_code)}'
                     )
                     return []
+                break
+
+            # Stop if for some reason the list was empty
+            if not response.information:
                 break
 
             for attribute_handle, attribute_uuid in response.information:
